@@ -1,7 +1,7 @@
 ------------------------------ MODULE MCStore ------------------------------
 (* Model-checking instance of Store: bounded exhaustive exploration of the  *)
 (* ingest / flush / offset-file / crash / recovery protocol (C01 C02 C03).  *)
-EXTENDS Store
+EXTENDS StoreProps
 
 CONSTANTS
   Menu,        \* Seq of points: WAL entry i is Menu[i] (id = i)
@@ -34,45 +34,12 @@ MCNext ==
   \/ /\ crashes < MaxCrashes
      /\ Crash
      /\ crashes' = crashes + 1
-  \/ Restart(InitWhere, InitFlds) /\ UNCHANGED crashes
+  \/ Start /\ UNCHANGED crashes
+  \/ \E t \in Tables : Open(t, InitWhere[t], InitFlds[t]) /\ UNCHANGED crashes
 
 MCSpec == MCInit /\ [][MCNext]_mcvars
 
 ----------------------------------------------------------------------------
-\* C02/C01: once ingestion has caught up, every acknowledged insert is
-\* reflected exactly once in every table
-ExactlyOnce == \A t \in Tables : CaughtUp(t) => View(t) = ExpectedS(t, Len(wal))
-
-\* in-flight inserts: never more than once, in any state
-AtMostOnce ==
-  \A t \in Tables : up =>
-    \A e \in DOMAIN View(t) :
-       /\ e[4] \in 1..Len(wal)
-       /\ View(t)[e] <= Mains(wal[e[4]]) + Extras(wal[e[4]])
-
-\* offsets and rows move in lock step: what a store holds is exactly the
-\* outcome of the WAL prefix its offset names
-\* (while the inserts of entry mem.off are being applied one by one, the
-\* view holds the prefix before it plus the part already applied)
-RECURSIVE PendCells(_, _)
-PendCells(t, s) ==
-  IF s = <<>> THEN EmptyBag
-  ELSE LET h == Head(s) IN
-       (IF h.data THEN Times(MainCells(t, wal[h.idx], flds[t]), h.main)
-                        (+) Times(ExtraCells(t, wal[h.idx], flds[t]), h.extra)
-        ELSE EmptyBag) (+) PendCells(t, Tail(s))
-SamePend(t) == SelectSeq(pend[t], LAMBDA h : h.idx = mem[t].off)
-AppliedPart(t) == ExpectedS(t, mem[t].off) (-) PendCells(t, SamePend(t))
-
-MemLockStep  == \A t \in Tables : up => View(t) = AppliedPart(t)
-\* C01 as stated: every value of every accepted point exactly once
-ViewCorrect == \A t \in Tables : CaughtUp(t) => View(t) = Expected(t, Len(wal))
-DiskLockStep == \A t \in Tables : \A i \in DOMAIN disk[t] :
-                   OnFields(disk[t][i].cells, flds[t]) = ExpectedS(t, disk[t][i].off)
-OffsetsOrdered == \A t \in Tables : up => /\ FileOff(t) <= mem[t].off
-                                          /\ mem[t].off <= rd[t]
-                                          /\ offFile[t] <= rd[t]
-
 \* C03: no step of the flush / offset-file / old-file protocol changes what
 \* a memstore-inclusive query returns, and right after the swap the disk-only
 \* view equals it
@@ -84,10 +51,6 @@ FlushInvisible == [][FlushStep => \A t \in Tables : View(t)' = View(t)]_mcvars
 DiskEqualsViewAfterSwap ==
   [][\A t \in Tables : FlushSwap(t) => DiskView(t)' = View(t)']_mcvars
 
-\* a clean restart (nothing in flight, everything flushed) keeps the view
-CleanRestartKeepsView ==
-  \A t \in Tables : (~up /\ mem[t].cells = EmptyBag /\ pend[t] = <<>>)
-      => TRUE
 
 Bound == Len(wal) <= Len(Menu)
 =============================================================================
